@@ -128,6 +128,8 @@ def apply_op(rp, s, kind, op):
         err = 'RuntimeError'
     except KeyError:
         err = 'KeyError'
+    except Exception as e:           # anything else the call lets escape (the batch it carried is then lost)
+        err = type(e).__name__
     outs = []
     for uid, state, pilot, role in s.rec:
         if state == rps.TMGR_SCHEDULING:              outs.append(['sched', tnum(uid)])
